@@ -172,6 +172,16 @@ def oracle(case, out):
         lost = {n for n in names_of(sb) if is_state(n) and n not in nb}
         if lost:
             return {"what": f"persistent names of the second method were renamed: {sorted(lost)}", "sig": "persistent-renamed"}
+    # "renamed exactly as the caller's predicate asks": a name both methods use is kept apart iff the predicate says so
+    if case["pred"] in ("all", "none"):
+        clash = names_of(sa) & names_of(sb)
+        for n in sorted(clash):
+            renamed = n not in nb
+            if case["pred"] == "all" and not renamed:
+                return {"what": f"the predicate asks for every shared name to be kept apart, but '{n}' is still used by the "
+                                f"second method in the fused phase", "sig": "predicate-ignored"}
+            if case["pred"] == "none" and renamed:
+                return {"what": f"the predicate asks for no renaming, but '{n}' of the second method was renamed", "sig": "predicate-ignored"}
     if case["pred"] != "default":
         return None
     # behaviour: each method's persistent results equal its solo run
